@@ -54,6 +54,7 @@ class Module:
             n = normalise_module(self.tree, inv)
             self.normalised, self.flagged = n.log, n.flagged
             if n.log:
+                canonicalise(self.tree)
                 # line numbers are used as textual order by several rules: make them consistent again after inlining
                 try:
                     self.tree = ast.parse(ast.unparse(self.tree), filename=relpath)
